@@ -25,7 +25,7 @@ WATCH = ["basana.core.dispatcher", "basana.core.helpers", "basana.core.event"]
 def plan(prop: str, tier: str) -> Plan:
     if tier == "quick":
         return Plan(shards=4, cases_per_shard=1200, timeout_s=400)
-    return Plan(shards=16, cases_per_shard=40000, timeout_s=3000)
+    return Plan(shards=16, cases_per_shard=100000, timeout_s=3000)
 
 
 def gen(r) -> Dict[str, Any]:
